@@ -29,8 +29,18 @@ SCHED_TIMEOUT = float(os.environ.get("VERIF_C14_SCHED_TIMEOUT", "150"))  # execu
 RECORD_TIMEOUT = float(os.environ.get("VERIF_C14_RECORD_TIMEOUT", "60"))
 
 
+# identifiers of the inputs 1..n of the job at hand (ComposedApp.tla, Name): set per job from the
+# behaviour TLC emitted; jobs run one after the other in a process
+DEFAULT_NAMES = ["t1", "t2", "t3", "t4"]
+NAMES = list(DEFAULT_NAMES)
+
+
+def set_names(names=None):
+    NAMES[:] = list(names) if names else DEFAULT_NAMES
+
+
 def name_of(i: int) -> str:
-    return f"t{i}"
+    return NAMES[i - 1]
 
 
 def payload_of(i: int) -> str:
@@ -40,9 +50,7 @@ def payload_of(i: int) -> str:
 
 def index_of_name(name) -> int:
     name = str(name)
-    if name.startswith("t") and name[1:].isdigit():
-        return int(name[1:])
-    return 0
+    return NAMES.index(name) + 1 if name in NAMES else 0
 
 
 # --------------------------------------------------------------------- projection
@@ -364,11 +372,20 @@ def build_app(job, ods, ctl):
     return make_steps(job, ctl) + wcls(data_store=ods, **kw)
 
 
+def prepare_named_inputs(ind: Path, names):
+    """input records for one more list of identifiers (same content per position)"""
+    for i, name in enumerate(names, start=1):
+        f = Path(ind) / f"{name}.fasta"
+        if not f.exists():
+            f.write_text(f">id\n{payload_of(i)}\n")
+
+
 def prepare_inputs(base: Path, nmax: int) -> Path:
     """the (read-only, shared) input records t1..t<nmax>"""
     ind = Path(base) / "in"
     ind.mkdir(parents=True, exist_ok=True)
     (ind / "alt").mkdir(exist_ok=True)
+    set_names()
     for i in range(1, nmax + 1):
         (ind / f"{name_of(i)}.fasta").write_text(f">id\n{payload_of(i)}\n")
         # another file whose identifier (name without format suffixes, get_unique_id) is the same
@@ -426,6 +443,7 @@ def run_job(job, root: Path):
     """job: {n, plan, w, order, writer, inputs, delays?, id}; returns observations"""
     root = Path(root)
     root.mkdir(parents=True, exist_ok=True)
+    set_names(job.get("names"))
     n, w = job["n"], job["w"]
     obs = {"id": job.get("id")}
     ctl = None
@@ -523,6 +541,7 @@ def run_as_completed(job, root: Path):
 
     root = Path(root)
     root.mkdir(parents=True, exist_ok=True)
+    set_names(job.get("names"))
     inputs = make_inputs(job)
     app = make_steps(job)
     job.pop("_ctor_args", None)
